@@ -7,6 +7,7 @@ package main
 
 import (
 	"fmt"
+	"os"
 	"go/types"
 
 	"golang.org/x/tools/go/ssa"
@@ -91,6 +92,15 @@ func (m *Machine) structEq(a, b Value) *Term {
 	case Float:
 		y, ok := b.(Float)
 		return tb.Bool(ok && x.v == y.v)
+	case *BigIntObj:
+		y, ok := b.(*BigIntObj)
+		if !ok {
+			if st, isS := b.(Struct); isS && len(st) == 2 {
+				return tb.Eq(x.v, tb.Const(0, bigW))
+			}
+			return tb.Bool(false)
+		}
+		return tb.Eq(x.v, y.v)
 	case nil:
 		return tb.Bool(b == nil)
 	}
@@ -147,6 +157,9 @@ func (m *Machine) marshalOpaque(kind string, payload Value, typ types.Type) Slic
 			continue
 		}
 		eqP := m.structEq(prev.payload, snap)
+		if os.Getenv("SYMGO_DEBUG") != "" {
+			fmt.Fprintf(os.Stderr, "marshalOpaque %s: prev=%s\n   new=%s\n   eq=%s\n", kind, truncate(describe(prev.payload), 300), truncate(describe(snap), 300), truncate(eqP.String(), 200))
+		}
 		eqB := m.bytesEq(prev.bytes, bs)
 		m.addAxiom(tb.Eq(eqP, eqB))
 	}
@@ -371,6 +384,40 @@ func registerProtoCodec(p *Program) {
 		return m.structEq(x.v, y.v)
 	}
 	I["github.com/cosmos/cosmos-sdk/types/msgservice.RegisterMsgServiceDesc"] = func(m *Machine, fr *Frame, fn *ssa.Function, a []Value) Value { return nil }
+	I["github.com/ethereum/go-ethereum/rlp.EncodeToBytes"] = func(m *Machine, fr *Frame, fn *ssa.Function, a []Value) Value {
+		iv := a[0].(Iface)
+		if iv.t == nil {
+			return Tuple{Slice{}, m.errIface(&ErrObj{kind: "new", msg: "rlp: nil"})}
+		}
+		pl := iv.v
+		if p, ok := pl.(*Value); ok && p != nil {
+			pl = *p
+		}
+		return Tuple{m.marshalOpaque("rlp", pl, iv.t), Iface{}}
+	}
+	I["github.com/ethereum/go-ethereum/rlp.DecodeBytes"] = func(m *Machine, fr *Frame, fn *ssa.Function, a []Value) Value {
+		bz := m.bytesArg(a[0])
+		dst := a[1].(Iface)
+		ptr, ok := dst.v.(*Value)
+		if !ok || ptr == nil {
+			panic(unsupported("rlp.DecodeBytes into a non-pointer"))
+		}
+		payload, e := m.unmarshalOpaque("rlp", bz)
+		if e == nil {
+			return m.errIface(&ErrObj{kind: "new", msg: "rlp: cannot decode"})
+		}
+		// encoded as T or *T, decoded into *T
+		want := deref(dst.t)
+		et := e.typ
+		if pt, isP := under(et).(*types.Pointer); isP {
+			et = pt.Elem()
+		}
+		if !types.Identical(want, et) {
+			return m.errIface(&ErrObj{kind: "new", msg: "rlp: type mismatch"})
+		}
+		*ptr = payload
+		return Iface{}
+	}
 	// vp.Codec(): a codec object for harnesses that need the real-codec behaviour
 	I[vpPath+"Codec"] = func(m *Machine, fr *Frame, fn *ssa.Function, a []Value) Value {
 		return Iface{t: m.p.ntype("native.ProtoCodec"), v: &ProtoCodecObj{}}
